@@ -129,6 +129,19 @@ CHECKS["C02"] = dict(
          "solver-found history plus a concrete certificate (a model N of the rules and of the assertions lacking a derived fact) re-checked natively.",
     design_ref="§4 C02, §9")
 
+CHECKS["C03"] = dict(
+    technique="SAT over the symbolically executed generated code: (a) idempotence lemma from the arbitrary state close() leaves behind, (b) self-composition of two symbolic API histories asserting the same symbolic facts in different orders / with duplicates / with intermediate close() calls",
+    text="(a) For every corpus program the solver shows that every `return false` of close_until leaves a state satisfying the loop-head invariant with "
+         "nothing pending and not dirty, and that from every such state (all states over the universe bound) a further close() returns in its first "
+         "iteration, changes no table cell and no representative and allocates nothing. (b) For every corpus program without `!` (decided within the time "
+         "budget; the evidence lists which) two symbolic public histories over the same elements assert the same k symbolic insert_/equate_ facts -- the "
+         "second in a symbolic order, with one duplicate and with close() at symbolic positions in between -- and the solver shows the two closed models "
+         "equal (elements, classes, tuples modulo equality); counterexamples are two scripts replayed natively. For programs with `!` history "
+         "independence is not decided directly: it rests on (a) together with C01 (closed) and C02 (free).",
+    design_ref="§4 C03, §9",
+    note="Bounds: (a) universe 2 (quick) / 2 and 3 (thorough); (b) universe 2, k = 2 facts, <= 3 iterations per close (quick); up to universe 3 / 3 facts / 4 "
+         "iterations (thorough); histories in which a close needs more iterations are outside the claim. Trusted: as for C01.")
+
 NOT_APPLICABLE = {
     "C02": "check not built yet (ghost-model soundness lemma planned, DESIGN.md §9)",
     "C03": "check not built yet (follows from C01 + C02 lemmas; idempotence lemma planned)",
